@@ -137,6 +137,30 @@ Theorem C02_threshold_at_ratio_monotone :
 Proof. exact tar_monotone. Qed.
 Print Assumptions C02_threshold_at_ratio_monotone.
 
+
+From SA Require Import Proofs.CarrierB64.
+
+(* ---- binary64: the only facts about np.nextafter used above, x < succ x and pred x < x, are theorems about the executable
+   binary64 model (succ64_gt, pred64_lt in Proofs/CarrierB64.v), so every statement above that quantifies over succ / pred
+   holds of that model with no hypothesis on nextafter left.  The statement of X_binary64 is the statement of X with
+   succ := succ64, pred := pred64 and the two hypotheses discharged (computed from X's own type, so it cannot drift). ---- *)
+Theorem C02_roundtrip_untied_binary64 :
+  ltac:(let t := type of (on_binary64 C02_roundtrip_untied) in let t' := eval cbv beta in t in exact t').
+Proof. exact (on_binary64 C02_roundtrip_untied). Qed.
+Print Assumptions C02_roundtrip_untied_binary64.
+Theorem C02_roundtrip_rates_binary64 :
+  ltac:(let t := type of (on_binary64 C02_roundtrip_rates) in let t' := eval cbv beta in t in exact t').
+Proof. exact (on_binary64 C02_roundtrip_rates). Qed.
+Print Assumptions C02_roundtrip_rates_binary64.
+Theorem C02_bracket_with_ties_binary64 :
+  ltac:(let t := type of (on_binary64 C02_bracket_with_ties) in let t' := eval cbv beta in t in exact t').
+Proof. exact (on_binary64 C02_bracket_with_ties). Qed.
+Print Assumptions C02_bracket_with_ties_binary64.
+Theorem C02_threshold_monotone_in_target_binary64 :
+  ltac:(let t := type of (on_binary64 C02_threshold_monotone_in_target) in let t' := eval cbv beta in t in exact t').
+Proof. exact (on_binary64 C02_threshold_monotone_in_target). Qed.
+Print Assumptions C02_threshold_monotone_in_target_binary64.
+
 Example C02_example :
   ssorted [1#1; 2#1; 4#1; 8#1] /\
   match threshold_at_fnr succ64 pred64 (mk_scores [1#1; 2#1; 4#1; 8#1] [3#1] 0 0 Pos Pos false) (3#8) Linear with
